@@ -26,10 +26,13 @@ class C28(EngineACheck):
 
     def run_one(self, ch: Choices) -> RunOutcome:
         out = RunOutcome()
-        feats = set(ALL_FEATURES) - {"forkjoin", "async"}
+        # (no_prov(...) subtrees and prov=False tasks: jobs that can never be served from the
+        # cache, so a dry run that reaches one has to stop there)
+        feats = (set(ALL_FEATURES) | {"noprov"}) - {"forkjoin", "async"}
         cfg = GenConfig(features=feats, p_error=0.15, modes=("thread", "thread", "process"),
                         p_dup=0.2, max_tasks=6,
                         task_options=[{"check_valid": "shallow"}, {"cache_scope": "CSE"},
+                                      {"prov": False},
                                       {"executor": "nope"}],  # (rejected before any submission)
                         p_task_option=0.25)
         if ch.choice(4, "program-family") == 3:
